@@ -62,6 +62,76 @@ func runC17(l *core.Ledger) {
 	c17GenFuncs(l, g)
 	l.Rule("C17-B11", "a service the documentation allows is generated: the generator stops only for the documented reasons (C16-Y12 re-run) - a new reason to reject (a custom return type declared in a sibling file, a nested message) means that a freshly written service that works with the committed generator gets no stubs")
 	l.With(map[string]string{"C16-Y12": "C17-B11"}, func() { c16Y12(l, g) })
+	c17B12(l, g)
+}
+
+// c17B12: when the generator may decide that a file is none of its business.
+// A method without any option is an ordered rpc - a Gorums call type of its
+// own - so every file with a service gets stubs (tests/dummy, tests/tls,
+// tests/metadata are written like that, without importing gorums.proto).
+func c17B12(l *core.Ledger, g *gen.Generator) {
+	l.Rule("C17-B12", "the generator answers 'nothing to generate' only for a file without services or without methods: every 'return false' of gorumsGuard is guarded by a test of len(file.Services) or by a predicate over file.Services itself - any other reason (an import that is missing, an option that is absent) leaves a service of ordered rpcs without stubs, with exit status 0")
+	fd := g.FuncDecl("gorumsGuard")
+	if fd == nil || fd.Body == nil {
+		l.Unknown("C17-B12", "anchor/gorumsGuard", token.NoPos, "gorumsGuard not found")
+		return
+	}
+	n := 0
+	var visit func(list []ast.Stmt, conds []ast.Expr)
+	okCond := func(c ast.Expr) bool {
+		ok := false
+		ast.Inspect(c, func(m ast.Node) bool {
+			ce, isCall := m.(*ast.CallExpr)
+			if !isCall {
+				return true
+			}
+			for _, a := range ce.Args {
+				if sel, isSel := ast.Unparen(a).(*ast.SelectorExpr); isSel && sel.Sel.Name == "Services" {
+					ok = true // len(file.Services), hasGorumsMethods(file.Services)
+				}
+			}
+			return true
+		})
+		return ok
+	}
+	visit = func(list []ast.Stmt, conds []ast.Expr) {
+		for _, st := range list {
+			switch x := st.(type) {
+			case *ast.ReturnStmt:
+				if len(x.Results) == 0 {
+					continue
+				}
+				id, isID := ast.Unparen(x.Results[0]).(*ast.Ident)
+				if !isID || id.Name != "false" {
+					continue
+				}
+				n++
+				good := false
+				for _, c := range conds {
+					if okCond(c) {
+						good = true
+					}
+				}
+				l.Check(good, "C17-B12", fmt.Sprintf("gengorums.gorumsGuard/nothing-to-generate#%d", n), x.Pos(), "decided from the file's services",
+					"gorumsGuard answers 'nothing to generate' for a reason that is not about the file's services and methods: a service of ordered rpcs (methods without options need no import of gorums.proto) silently gets no generated file - a freshly generated service has no stubs at all")
+			case *ast.IfStmt:
+				visit(x.Body.List, append(append([]ast.Expr{}, conds...), x.Cond))
+				if eb, isB := x.Else.(*ast.BlockStmt); isB {
+					visit(eb.List, conds)
+				} else if ei, isIf := x.Else.(*ast.IfStmt); isIf {
+					visit([]ast.Stmt{ei}, conds)
+				}
+			case *ast.BlockStmt:
+				visit(x.List, conds)
+			case *ast.ForStmt:
+				visit(x.Body.List, conds)
+			case *ast.RangeStmt:
+				visit(x.Body.List, conds)
+			}
+		}
+	}
+	visit(fd.Body.List, nil)
+	l.Floor("C17-B12", n, 1, "'nothing to generate' answers of gorumsGuard")
 }
 
 // ---------------------------------------------------------------------------
